@@ -179,37 +179,39 @@ def seq_ok(*prog):
 def conds(tier):
     q = tier == "quick"
     cs = []
-    punct_t = [6, 7, 8]
     # singles: punctuation transformations with all word assignments; the others with edge assignments
-    for (m, n) in ([(1, 1), (2, 1), (2, 2), (2, 3), (3, 3)] if q else [(1, 1), (2, 1), (3, 1), (2, 2), (2, 3), (3, 3), (3, 4)]):
+    pshapes = [(1, 1), (2, 1), (2, 2), (2, 3)] if q else [(1, 1), (2, 1), (3, 1), (2, 2), (2, 3), (3, 3), (3, 4)]
+    for (m, n) in pshapes:
         ws = [P("w%d" % j, "int", 0, 3) for j in range(1, n + 1)]
         cs.append(Cond("punct-m%d-n%d" % (m, n), "harness.c04:single", e1_params(m, n) + ws + [P("t", "int", 6, 9), P("relc", "bool")],
                        fixed={"m": m, "n": n, "mark": 0, "bare": False, "preset": 0}, pre=[e1_wf_expr(m, n), "t == 7 or not relc"],
                        shard=["t"] + (["w1"] if m * n >= 9 else []) + (["lp1"] if m * n >= 12 else []),
                        timeout=600 if q else 3000, functions=FUNCS[6:9]))
-        es = [P("e%d" % j, "int", 0, 3) for j in range(1, m + n)] if m + n <= 5 else \
-            [P("e%d" % j, "int", 0, 3) for j in range(1, 4)]
+    sshapes = [(1, 1), (2, 1), (2, 2), (2, 3), (3, 3)] if q else [(1, 1), (2, 1), (3, 1), (2, 2), (2, 3), (3, 3), (3, 4), (4, 4)]
+    for (m, n) in sshapes:
+        ne = 1 if q else min(m + n - 1, 3)
+        es = [P("e%d" % j, "int", 0, 3) for j in range(1, ne + 1)]
         cs.append(Cond("struct-m%d-n%d" % (m, n), "harness.c04:single",
                        e1_params(m, n) + es + [P("t", "int", 0, 12), P("mark", "int", 0, 2), P("bare", "bool"), P("preset", "int", 0, 2)],
                        fixed={"m": m, "n": n, "relc": False},
                        pre=[e1_wf_expr(m, n), "t not in (6, 7, 8)", "(t == 9 or not bare) and (mark == 1 or preset == 0)",
                             "t in (2, 3, 4, 9) or mark == 0"],
-                       shard=["t"] + (["e1"] if m + n >= 5 else []) + (["lp1"] if m * n >= 9 else []),
-                       timeout=600 if q else 3000, functions=FUNCS))
+                       shard=["t"] + (["lp1"] if m * n >= 9 and not q else []) + (["e1"] if not q and m + n >= 5 else []),
+                       skip=lambda sf: sf["t"] in (6, 7, 8), timeout=600 if q else 3000, functions=FUNCS))
     for (m, n) in ([(2, 2), (2, 3), (3, 3)] if q else [(2, 3), (3, 3), (3, 4), (4, 4)]):
-        es = [P("e%d" % j, "int", 0, 3) for j in range(1, 4)]
+        es = [P("e%d" % j, "int", 0, 3) for j in range(1, (2 if q else 4))]
         cs.append(Cond("pipeline-m%d-n%d" % (m, n), "harness.c04:pipeline", e1_params(m, n) + es + [P("mark", "int", 0, 2)],
                        fixed={"m": m, "n": n}, pre=[e1_wf_expr(m, n)], shard=["mark"] + (["lp1"] if m * n >= 9 else []) +
                        (["lp2"] if m * n >= 16 else []),
                        timeout=600 if q else 3000, functions=FUNCS[:5]))
     # programs
-    for (m, n, L) in ([(2, 2, 2), (2, 3, 2)] if q else [(2, 3, 2), (3, 3, 2), (2, 3, 3), (3, 4, 2)]):
+    for (m, n, L, nw) in ([(2, 2, 2, 2), (2, 3, 2, 1)] if q else [(2, 3, 2, 2), (3, 3, 2, 2), (2, 3, 3, 1), (3, 4, 2, 1)]):
         ts = [P("t%d" % i, "int", 0, 12) for i in range(1, L + 1)]
-        ws = [P("w%d" % j, "int", 0, 2) for j in range(1, n + 1)]
+        ws = [P("w%d" % j, "int", 0, nw) for j in range(1, n + 1)] if nw > 1 else []
         cs.append(Cond("seq%d-m%d-n%d" % (L, m, n), "harness.c04:seq", e1_params(m, n) + ws + ts,
                        fixed={"m": m, "n": n, "L": L, "mark": 0},
                        pre=[e1_wf_expr(m, n), "_h.seq_ok(%s)" % ", ".join("t%d" % i for i in range(1, L + 1))],
-                       shard=["t1"] + (["t2"] if L >= 3 or m * n >= 9 else []) + (["lp1"] if m * n >= 12 else []),
+                       shard=["t1"] + (["t2"] if L >= 3 or (m * n >= 9 and not q) else []) + (["lp1"] if m * n >= 12 else []),
                        timeout=600 if q else 3000, functions=FUNCS,
                        note="all prerequisite-respecting programs of length %d" % L))
     return cs
